@@ -176,7 +176,12 @@ def run(tier, seed, only=None):
             fem.comp.apply_nonlinear(VecStore({"local_stiff_transformed": kt, "forces": f}), VecStore({"disp_aug": u}), R)
         Ku = [sum((Kc[i, j] * u[j] for j in range(n + 6) if Kc[i, j] is not ZERO), ZERO) - f[i] for i in range(n + 6)]
         obs = idents("residual", symify(R["disp_aug"]), Ku, meta={"family": "residual is K u - f (linear in loads and displacements)", "kind": "ref"})
-        run_obligations(rep, "residual = K u - f[%s]" % cn, obs, timeout, family=lambda ob: "FEM: " + ob.meta["family"])
+        def res_rp(ob, env, ch=ch, s=s, ny=ny):
+            from props import c02
+
+            return c02.replay_fem_residual(s, ch)
+
+        run_obligations(rep, "residual = K u - f[%s]" % cn, obs, timeout, family=lambda ob: "FEM: " + ob.meta["family"], replay=res_rp)
         # CreateRHS and Disp
         crhs = SymComp("structures.create_rhs", "CreateRHS", surface=s)
         dsp = SymComp("structures.disp", "Disp", surface=s)
@@ -191,7 +196,17 @@ def run(tier, seed, only=None):
                           meta={"family": "right-hand side = loads followed by six zero constraint entries", "kind": "ref"})
         dd = dsp.sym1({"disp_aug": u})["disp"]
         obs += idents("disp", dd, np.array(list(u[:n]), dtype=object).reshape(ny, 6), meta={"family": "disp = first 6 ny entries of the augmented solution", "kind": "ref"})
-        run_obligations(rep, "CreateRHS + Disp[%s]" % cn, obs, timeout, family=lambda ob: "FEM: " + ob.meta["family"])
+        def rhs_rp(ob, env, crhs=crhs, dsp=dsp, ny=ny, n=n):
+            rng = np.random.default_rng(5)
+            ldv = 50.0 * (1.0 + rng.random((ny, 6))) * np.where(rng.random((ny, 6)) > 0.5, 1.0, -1.0)
+            f_ = crhs.real({"total_loads": ldv})["forces"]
+            uv = rng.standard_normal(n + 6)
+            d_ = dsp.real({"disp_aug": uv})["disp"]
+            bad = np.abs(f_ - np.concatenate([ldv.ravel(), np.zeros(6)])).max() > 1e-9 or np.abs(d_ - uv[:n].reshape(ny, 6)).max() > 1e-12
+            return bad, "real CreateRHS / Disp: forces vs loads ++ zeros differ by %.3g, disp vs first 6 ny entries by %.3g" % (
+                np.abs(f_ - np.concatenate([ldv.ravel(), np.zeros(6)])).max(), np.abs(d_ - uv[:n].reshape(ny, 6)).max())
+
+        run_obligations(rep, "CreateRHS + Disp[%s]" % cn, obs, timeout, family=lambda ob: "FEM: " + ob.meta["family"], replay=rhs_rp)
     # ---------------- cantilever closed form (ny = 2, beam along -y from the clamped root at the origin)
     cantilever(rep, timeout)
     states_group(rep, tier, timeout)
@@ -256,8 +271,26 @@ def cantilever(rep, timeout):
     eqs = [eq(sum((Kc[i, j] * u[j] for j in range(18) if Kc[i, j] is not ZERO), ZERO), f[i]) for i in range(18)]
     obs.append(oblig.Ob("tip twist under torque", cond=ne(u[4], P * Lb / (G * J[0])), assume=pos + eqs,
                         meta={"family": "cantilever twist = T L / (G J)", "kind": "cant"}))
+    def cant_rp(ob, env, s=s, ch=ch):
+        """the real FEM solve of a one-element cantilever against beam theory"""
+        Lv, Av, Iyv, Izv, Jv, Pv = 2.5, 3e-3, 2e-6, 5e-6, 4e-6, 1000.0
+        nodes_v = np.array([[0.0, -Lv, 0.0], [0.0, 0.0, 0.0]])
+        Kn = ch.real_K(nodes_v, np.array([Av]), np.array([Iyv]), np.array([Izv]), np.array([Jv]))
+        Ev, Gv = s["E"], s["G"]
+        bad = []
+        for lab, dof, ref in (("axial", 1, Pv * Lv / (Ev * Av)), ("bending in x (Iy)", 0, Pv * Lv**3 / (3 * Ev * Iyv)),
+                              ("bending in z (Iz)", 2, Pv * Lv**3 / (3 * Ev * Izv)), ("torsion", 4, Pv * Lv / (Gv * Jv))):
+            f = np.zeros(18)
+            f[dof] = Pv
+            u = np.linalg.solve(Kn, f)
+            if abs(u[dof] - ref) > 1e-6 * abs(ref):
+                bad.append("%s: tip %.9g, beam theory %.9g" % (lab, u[dof], ref))
+            if np.abs(u[6:12]).max() > 1e-9 * abs(ref):
+                bad.append("%s: clamped root moves by %.3g" % (lab, np.abs(u[6:12]).max()))
+        return bool(bad), "; ".join(bad) or "one-element cantilever matches beam theory"
+
     run_obligations(rep, "cantilever closed forms[ny=2]", obs, timeout, family=lambda ob: "FEM: " + ob.meta["family"],
-                    levels=(2,), cut_threshold=0)
+                    levels=(2,), cut_threshold=0, replay=cant_rp)
 
 
 def replay_file(path):
